@@ -593,8 +593,13 @@ func init() {
 				pb, ok2 := b.Payload.(PtrV)
 				if ok1 && ok2 && isStructLike(u.Elem()) {
 					// equal pointers, or deeply equal pointees (over-approximated by an unknown when refs differ)
+					// a true answer for different references implies equal pointees
 					same := x.ptrEq(st, pa, pb)
 					unk := st.fresh("deepeq", SBool)
+					if !pa.Nil && !pb.Nil && pa.Ref != "" && pb.Ref != "" && len(pa.Path) == 0 && len(pb.Path) == 0 {
+						sort := x.w.SortOf(u.Elem())
+						st.assume(tImp(unk, tEq(st.heapSelect(sort, pa.Ref), st.heapSelect(sort, pb.Ref))))
+					}
 					return one(st, TV{SBool, tOr(same, unk)})
 				}
 			}
